@@ -132,6 +132,20 @@ def run(prop, ctx_model):
                 n, b = S.validate_against_re(pat, ab, ml, sem)
                 total += n
                 bad += [("ignorecase " + pat, sem) + x for x in b]
+    if prop == "C03":
+        # the engine's model of re.ASCII (categories and case folding)
+        for pat in (r"(?a)[^\s()]+\s*\S.*", r"(?a)\w+\d\W", r"(?ai)[k-s]+\s",
+                    r"(?ai)[^a-z]\w"):
+            ab = S.Alphabet(S.charsets_of_pattern(pat) + [
+                S.cs_of("\u001c"), S.cs_of("\u00a0"), S.cs_of("\u0661"),
+                S.cs_of("\u00e9"), S.cs_of("\u212a"), S.cs_of("\u017f"),
+                S.cs_of("K"), S.cs_of("s"), S.cs_of("_"), S.cs_of("0"),
+                S.cs_of(" ")])
+            ml = 3 if ab.n > 8 else 4
+            for sem in ("first", "full"):
+                n, b = S.validate_against_re(pat, ab, ml, sem)
+                total += n
+                bad += [("ascii " + pat, sem) + x for x in b]
     if prop == "C18":
         pat = r"[a-zA-Z][-+.a-zA-Z0-9]*:"
         n, b = validate_tagged("(?P<m>%s)" % pat, 5, ":")
